@@ -56,3 +56,16 @@ Proof.
   intros s m H. unfold code_sink_modes in H. rewrite (proj1 wiring_pinned) in H. cbn in H.
   repeat (destruct H as [H|H]; [inversion H; reflexivity|]). destruct H.
 Qed.
+
+(* the landmarks of main_result in source order: this is the order of effects C20/Model.v's [run] / [exec] and C20/Clap.v's
+   [run_outcome] are written in (clap first; the log file; --help-markdown before the validity tests; the tests before the
+   --features match; read_path before the sinks are opened; the cyborg file before the output file; --dump before processing;
+   the human report before the JSON one), and every std::process::exit of main.rs has the argument 1 *)
+Definition pinned_main_steps : list string :=
+  ["parse"; "log_create"; "panic_hook"; "help_markdown"; "mode_munging"; "cyborg_desugar"; "pretty_check"; "brief_check";
+   "features_match"; "overrides"; "read_path"; "cyborg_create"; "output_create"; "dump_dispatch"; "process"; "print_human";
+   "print_json"; "process_error"; "read_error"].
+Definition pinned_exit_calls : list string := ["1"; "1"; "1"; "1"; "1"; "1"].
+Lemma main_steps_pinned :
+  RM.Gen.C20Wiring.MAIN_STEPS = pinned_main_steps /\ RM.Gen.C20Wiring.EXIT_CALLS = pinned_exit_calls.
+Proof. split; reflexivity. Qed.
